@@ -324,11 +324,29 @@ func genC06(r *core.Rand, run int) *MuxScenario {
 	if sp.Fault.Kind == "cut" && tr.proto == "ws" {
 		sp.WSClose = "none" // the cut decides where the stream ends
 	}
+	// one frame that is not a message at all after the client's messages (not
+	// gzip, gzip that fails late, zero bytes flagged compressed, bytes the codec
+	// refuses): the handler gets the messages before it and then an error -
+	// never a clean end of stream, never one more message
+	if (tr.proto == "grpc" || tr.proto == "grpcweb") && tr.codec == "proto" && mi.ClientS && sp.Method != "files" && sp.Fault.Kind == "" && sp.Timeout == "" && r.Chance(1, 6) {
+		sp.Poison, sp.Compress, sp.PingPong = true, true, false
+		if len(sp.Msgs) == 0 || r.Chance(1, 3) {
+			// (the variant is taken from the first message's seed)
+			sp.Msgs = append([]MsgSpec{{Size: r.Pick(0, 10, 100), Seed: r.U64() >> 8}}, sp.Msgs...)
+		}
+		for i := range sp.Msgs {
+			sp.Msgs[i].Over = false
+		}
+		sp.Handler = HandlerSpec{FailCode: int(codes.Aborted), PassErr: r.Chance(1, 2), Steps: []HStep{{Op: "recvall"}, {Op: "sendall"}}, Resps: []MsgSpec{{Size: 5, Seed: 1}}}
+		if sc.Knobs.MaxRecv < 1024 {
+			sc.Knobs.MaxRecv = 1024 // the frame has to pass the size check to be looked at
+		}
+	}
 	sc.Reqs = []ReqSpec{sp}
 	fitLimits(sc)
 	// (after the limit has been fitted to everything else) one message that
 	// inflates beyond the limit from a frame below it
-	if strings.HasPrefix(tr.proto, "grpc") && sp.Compress && tr.codec == "proto" && sp.Method == "bidi" && len(sp.Msgs) > 0 && sp.Fault.Kind == "" && !sp.PingPong && sc.Knobs.MaxRecv >= 256 && r.Chance(1, 8) {
+	if strings.HasPrefix(tr.proto, "grpc") && sp.Compress && !sp.Poison && tr.codec == "proto" && sp.Method == "bidi" && len(sp.Msgs) > 0 && sp.Fault.Kind == "" && !sp.PingPong && sc.Knobs.MaxRecv >= 256 && r.Chance(1, 8) {
 		k := r.Intn(len(sp.Msgs))
 		sc.Reqs[0].Msgs[k] = MsgSpec{Size: sc.Knobs.MaxRecv + r.Pick(1, 7, 100, sc.Knobs.MaxRecv), Seed: r.U64() >> 8, Over: true}
 	}
@@ -390,7 +408,20 @@ func loadMuxScenario(rc *RunCtx, gen func(*core.Rand, int) *MuxScenario) *MuxSce
 		}
 		return sc
 	}
-	return gen(core.NewRand(rc.ScenarioSeed()), rc.Run)
+	sc := gen(core.NewRand(rc.ScenarioSeed()), rc.Run)
+	// The scheduling policy is one more per-run knob (swarm style), drawn from
+	// a stream of its own so that the scenarios themselves are what they were.
+	pr := core.NewRand(core.Mix(rc.ScenarioSeed(), 0x9c4ed))
+	switch pr.Intn(8) {
+	case 4, 5:
+		sc.Sched = &core.SchedPolicy{Kind: "sticky"}
+	case 6, 7:
+		sc.Sched = &core.SchedPolicy{Kind: "prio", Seed: pr.U64() >> 1}
+		for k := pr.Intn(4); k > 0; k-- {
+			sc.Sched.Changes = append(sc.Sched.Changes, pr.Intn(pr.Pick(20, 60, 200)))
+		}
+	}
+	return sc
 }
 
 func runC06(t *testing.T, rc *RunCtx) *RunResult {
@@ -402,8 +433,49 @@ func runC06(t *testing.T, rc *RunCtx) *RunResult {
 	rs := mr.reqs[0]
 	res.Shape = mr.contextKey(rs) + fmt.Sprintf("/n=%d/resp=%d/lim=%d", len(rs.spec.Msgs), len(rs.spec.Handler.Resps), sc.Knobs.MaxRecv)
 	res.Nontrivial = res.Counters[cShortRead]+res.Counters[cOneByteRead]+res.Counters[cEOFWithData] > 0 || rs.spec.Fault.Kind != ""
+	if rs.spec.Poison {
+		res.Nontrivial = true
+		res.Violation = oraclePoisoned("C06", mr, rs, &res.Counters)
+		return res
+	}
 	res.Violation = oracleStream("C06", mr, rs, &res.Counters)
 	return res
+}
+
+// oraclePoisoned judges a request stream that carries, after the client's
+// messages, one frame that is not a message: the handler's receive log is the
+// messages before it, in order, and then an error. A clean end of stream there
+// would tell the handler that the client was done; one more message would be a
+// fabricated one.
+func oraclePoisoned(prop string, mr *muxRun, rs *reqState, cnt *[core.NumCounters]int) *Violation {
+	if v := mr.globalInvariants(prop); v != nil {
+		return v
+	}
+	sp := rs.spec
+	l := rs.log()
+	ctx := mr.contextKey(rs) + "/poison"
+	if !l.Entered {
+		return violationf(prop, "not-dispatched", ctx, "request %d: the handler was never entered", sp.ID)
+	}
+	if len(l.Recv) > len(sp.Msgs) {
+		return violationf(prop, "recv-extra-message", ctx, "request %d: the handler received %d messages, the client sent %d and then a frame that is not a message", sp.ID, len(l.Recv), len(sp.Msgs))
+	}
+	for i, m := range l.Recv {
+		if want := rs.clientMsg(i); !proto.Equal(m, want) {
+			return violationf(prop, "recv-mismatch", ctx, "request %d: message %d reached the handler as %s, sent as %s", sp.ID, i, msgPreview(m), msgPreview(want))
+		}
+	}
+	if l.RecvEOF {
+		return violationf(prop, "undecodable-frame-as-eof", ctx, "request %d: after %d of %d messages the handler was told the stream had ended cleanly (io.EOF); the client had sent a frame that is not a message (wire tail %s) and had not half-closed before it", sp.ID, len(l.Recv), len(sp.Msgs), hexPreview(rs.wire[rs.bounds[len(rs.bounds)-1]:], 24))
+	}
+	if l.RecvErr == nil {
+		return violationf(prop, "recv-missing-error", ctx, "request %d: the handler received %d messages and no error though the stream carried a frame that is not a message", sp.ID, len(l.Recv))
+	}
+	if len(l.Recv) < len(sp.Msgs) {
+		return violationf(prop, "recv-missing-message", ctx, "request %d: the handler received %d of the %d messages in front of the undecodable frame, then %v", sp.ID, len(l.Recv), len(sp.Msgs), l.RecvErr)
+	}
+	cnt[cUndecodableJudged]++
+	return nil
 }
 
 // oracleStream judges one streaming call against the reference model "the two
@@ -818,6 +890,11 @@ func shrinkMuxScenario(raw json.RawMessage) []json.RawMessage {
 			c.Reqs = append(c.Reqs[:i], c.Reqs[i+1:]...)
 			emit(c)
 		}
+	}
+	if sc.Sched != nil {
+		c := clone()
+		c.Sched = nil
+		emit(c)
 	}
 	for i := range sc.Reqs {
 		r := sc.Reqs[i]
